@@ -52,4 +52,54 @@ theorem div_mul_cancel_int (i z : ℤ) (hz : 0 < z) : Int.tdiv (i * z) z = i ∧
   · exact Int.mul_tdiv_cancel i (ne_of_gt hz)
   · exact Int.mul_tmod_left i z
 
+/-- signed 64-bit wrap-around of an integer: what `bvmul` / `bvadd` on 64-bit vectors compute, read as
+    two's-complement numbers -/
+def wrap64 (x : ℤ) : ℤ := (x + 9223372036854775808) % 18446744073709551616 - 9223372036854775808
+
+theorem wrap64_range (x : ℤ) : -9223372036854775808 ≤ wrap64 x ∧ wrap64 x < 9223372036854775808 := by
+  unfold wrap64; omega
+
+theorem wrap64_congr (x : ℤ) : ∃ k : ℤ, wrap64 x = x - k * 18446744073709551616 := by
+  unfold wrap64
+  exact ⟨(x + 9223372036854775808) / 18446744073709551616, by omega⟩
+
+/-- `wrap_id`: a value that fits is not changed by wrapping -/
+theorem wrap64_id (x : ℤ) (h1 : -9223372036854775808 ≤ x) (h2 : x < 9223372036854775808) : wrap64 x = x := by
+  unfold wrap64; omega
+
+/-- `mul_tdiv_overflow`: the overflow test `(z*n wrapped) / z == n` (truncating division, C and `bvsdiv`) for
+    0 < z and 0 ≤ n succeeds exactly when the mathematical product fits a signed 64-bit integer -/
+theorem mul_tdiv_overflow (z n : ℤ) (hz : 0 < z) (hn : 0 ≤ n) :
+    Int.tdiv (wrap64 (z * n)) z = n ↔ z * n < 9223372036854775808 := by
+  have hzn : 0 ≤ z * n := mul_nonneg (le_of_lt hz) hn
+  constructor
+  · intro h
+    obtain ⟨k, hk⟩ := wrap64_congr (z * n)
+    have hr := wrap64_range (z * n)
+    generalize wrap64 (z * n) = W at h hk hr
+    generalize hP : z * n = P at hk hzn
+    by_cases hWneg : W < 0
+    · -- a negative dividend gives a non-positive quotient: n = 0, so P = 0, so W = 0
+      have h0 : Int.tdiv W z ≤ 0 := by
+        have h1 : Int.tdiv (-W) z = -(Int.tdiv W z) := Int.neg_tdiv W z
+        have h2 : 0 ≤ Int.tdiv (-W) z := Int.tdiv_nonneg (by omega) (le_of_lt hz)
+        omega
+      have hn0 : n = 0 := by omega
+      subst hn0
+      simp at hP
+      omega
+    · have hW : 0 ≤ W := by omega
+      rw [Int.tdiv_eq_ediv_of_nonneg hW] at h
+      have h1 := Int.ediv_mul_le W (ne_of_gt hz)
+      have h2 := Int.lt_ediv_add_one_mul_self W hz
+      rw [h] at h1 h2
+      have h3 : n * z = P := by rw [mul_comm]; exact hP
+      have h4 : (n + 1) * z = P + z := by rw [add_mul, one_mul, h3]
+      rw [h3] at h1
+      rw [h4] at h2
+      omega
+  · intro h
+    rw [wrap64_id (z * n) (by omega) h, mul_comm]
+    exact Int.mul_tdiv_cancel n (ne_of_gt hz)
+
 end Arith
